@@ -19,11 +19,14 @@ def fragOK (dv : Dev) : Frag → Bool
   | .index i => decide (0 ≤ i)                 -- not counted from the end
   | .wildcard => true
   | .union ms => ms.all memOK                  -- no member counted from the end
-  | .slice a b st =>                           -- only once the bounds are applied, and then
-    !dv.sliceAll && decide (0 ≤ a) && decide (0 < st) &&   -- bounds from the start, forward step
-      (match b with
-        | none => true
-        | some e => decide (0 ≤ e))
+  | .slice a b st =>
+    if dv.sliceAll then                        -- every index matches: right for `[:]` only
+      decide (a = 0) && b.isNone && decide (st = 1)
+    else                                       -- bounds applied: bounds from the start, forward step
+      decide (0 ≤ a) && decide (0 < st) &&
+        (match b with
+          | none => true
+          | some e => decide (0 ≤ e))
   | .descent => true
   | .filter _ => false
 
@@ -32,5 +35,21 @@ descent match the node itself -/
 def okTarget (dv : Dev) : Target → Bool
   | [] => true
   | f :: fs => fragOK dv f && okTarget dv fs && !(dv.descentNoSelf && isDescent f && fs.isEmpty)
+
+def isFilterFrag : Frag → Bool
+  | .filter _ => true
+  | _ => false
+
+/-- What a fragment means to a matcher that compares a from-the-end index with the path's
+non-negative index and lets a slice match every index (`Dev.sliceAll`): a negative index selects
+nothing (the empty union), negative union members drop out, a slice is `[:]`. The identity on
+every fragment that is `fragOK`. -/
+def streamedFrag : Frag → Frag
+  | .index i => if i < 0 then .union [] else .index i
+  | .union ms => .union (ms.filter memOK)
+  | .slice _ _ _ => .slice 0 none 1
+  | f => f
+
+def asStreamed (t : Target) : Target := t.map streamedFrag
 
 end OjgVerif.Match
